@@ -62,7 +62,7 @@ PROPS = {
     "C17": {
         "file": "C17.v",
         "streams": [S("reg", 30, 400)],
-        "claim": "Theorems over RegistryLts (sync.Map operations and the registration lock as atomic steps; any number of concurrent GetCache / GetCacheWithConfig / Register / RegisterCache / Remove / CloseAll callers, names and type parameters; every interleaving): one instance per name, every returned instance was in the map at the call's linearization point, losers of creation races are closed, no instance is ever leaked once all calls returned, type mismatches (live instance or typed registration) fail without leaving an instance behind, unregistered names fail, Register never replaces, Remove closes and forgets, CloseAll keeps registrations and forgets only what it closed. The leak schedule found on the model was replayed on the real code through a yield hook and fixed (F12); F8 fixed earlier. Tied to /repo by sequential call sequences compared with the sequential registry specification (extracted), concurrent rounds with identity / liveness / goroutine-delta monitors, CloseAll races and the deterministic leak probe.",
+        "claim": "Theorems over RegistryLts (sync.Map operations and the registration lock as atomic steps; any number of concurrent GetCache / GetCacheWithConfig / Register / RegisterCache / Remove / CloseAll callers, names and type parameters; every interleaving): one instance per name, every returned instance was in the map at the call's linearization point, losers of creation races are closed, no instance is ever leaked once all calls returned, type mismatches (live instance or typed registration) fail without leaving an instance behind, unregistered names fail, Register never replaces, Remove closes and forgets, CloseAll keeps registrations and forgets only what it closed. The leak schedule found on the model was replayed on the real code through a yield hook and fixed (F12); F8 fixed earlier. Tied to /repo by sequential call sequences compared with the sequential registry specification (extracted), concurrent rounds with identity / liveness / goroutine-delta monitors, CloseAll races and the deterministic leak probe. Since the sequential traces are now replayed on the extracted RegistryLts itself as well (every call spawned as a thread and run to completion, sid 18), the LTS the theorems are about is compared with the real Manager call by call, not only the separate sequential specification.",
         "note": "Trusted: Coq kernel, extraction (sequential spec only), harness, the CloseAll yield hook. The concurrent LTS is hand-written from manager.go and tied by monitors, not by an extracted-model diff. sync.Map and sync.RWMutex are taken at their documented meaning.",
         "assumptions": ["a GetCache linearizing just before a concurrent CloseAll may return the instance being closed (c17_closed_instance_window)"],
     },
